@@ -649,6 +649,11 @@ func (fd *Client) BatchWriteItem(input *dynamodb.BatchWriteItemInput) (*dynamodb
 }
 
 func validateWriteRequest(req *dynamodb.WriteRequest) error {
+	if req == nil {
+		// a request that is not there is neither a put nor a delete
+		return awserr.New("ValidationException", "Supplied AttributeValue has more than one datatypes set, must contain exactly one of the supported datatypes", nil)
+	}
+
 	if req.DeleteRequest != nil && req.PutRequest != nil {
 		return awserr.New("ValidationException", "Supplied AttributeValue has more than one datatypes set, must contain exactly one of the supported datatypes", nil)
 	}
